@@ -85,8 +85,13 @@ Proof.
   - unfold p_addlost in H. destruct (p_live s t); [|discriminate]. destruct (curr s t); [discriminate|]. injection H as <-. exact F.
   - unfold p_finish in H. destruct (p_live s t); [|discriminate]. injection H as <-. intro b. unfold size; sp.
     destruct (curr s t); [destruct (f_rec _)|]; apply F.
-  - unfold m_msg in H. destruct (stopped s); [discriminate|]. destruct (chan s) as [|[b|b|n] r]; try discriminate; injection H as <-;
-      try exact F. intro x. unfold size. rewrite record_mmap_data. apply F.
+  - unfold p_exec in H. destruct (p_live s t); [|discriminate]. destruct (curr s t); [|discriminate]. injection H as <-.
+    apply (fits_data_cases c s _ F). intro b. sp. unfold upd. destruct (bid_eqb b (t, S (nbuf s t))); [auto|].
+    destruct (bid_eqb b (t, nbuf s t)); auto.
+  - unfold m_msg in H. destruct (stopped s); [discriminate|]. destruct (chan s) as [|[b|b|n|b] r]; try discriminate.
+    4:{ destruct (first_tid (fst b) (shl s)) as [b'|]; injection H as <-; [|exact F].
+        intro x. unfold size. rewrite record_mmap_data. apply F. }
+    all: injection H as <-; try exact F. intro x. unfold size. rewrite record_mmap_data. apply F.
   - apply w_pick_spec in H. destruct H as (s0 & Ek & _ & wr & _ & _ & H).
     destruct (take_kick_spec s s0 Ek) as [[->|(k & ->)] _]; destruct H as [[_ ->]|(b & rest & _ & ->)]; exact F.
   - apply w_write_spec in H. destruct H as (_ & wr & t0 & b & rest & _ & _ & _ & _ & ->).
